@@ -12,16 +12,16 @@ import (
 )
 
 type cxnAnchors struct {
-	queueFn    *ssa.Function // sends a state-change event on the connection's channel
-	readFn     *ssa.Function // calls net.Conn.Read
-	writeFn    *ssa.Function // calls net.Conn.Write (the per-command goroutine)
-	writeCall  ssa.CallInstruction
-	runFn      *ssa.Function // the state machine loop (receives from the channel)
-	waitState  int64         // state constant under which readFn is called
-	dispState  int64         // state constant under which the dispatch function is called
-	parseFn    *ssa.Function // creates the deserializer
-	errs       []string
-	fInbound   *types.Var
+	queueFn   *ssa.Function // sends a state-change event on the connection's channel
+	readFn    *ssa.Function // calls net.Conn.Read
+	writeFn   *ssa.Function // calls net.Conn.Write (the per-command goroutine)
+	writeCall ssa.CallInstruction
+	runFn     *ssa.Function // the state machine loop (receives from the channel)
+	waitState int64         // state constant under which readFn is called
+	dispState int64         // state constant under which the dispatch function is called
+	parseFn   *ssa.Function // creates the deserializer
+	errs      []string
+	fInbound  *types.Var
 }
 
 func isConnMethod(c ssa.CallInstruction, name string) bool {
